@@ -27,6 +27,8 @@ func init() {
 	c11extra = func(c *Ctx) {
 		c.ruleM3("M3-flag-shape", "M3-flag-implies-success")
 		c.Min("M3-flag-shape", 30)
+		c.ruleM3b("M3-flag-filtered-above-break")
+		c.ruleM3c("M3-return-sets-flag")
 		c.ruleM4("M4-bare-return-nil")
 		c.ruleM5("M5-map-write-locked")
 		// the map handed back is complete: every goroutine that may still add an entry is joined before any return
